@@ -279,7 +279,12 @@ def d2(ctx, rep):
                 rep.check('D2.keys', f, s, set(d.keys) == set(want), f'{c.name}.{nm} keys = {want}',
                           f'{c.name}.{nm} fills {sorted(map(str, d.keys))}, {dotted} takes {want}', construct=f'{c.name}.{nm} keys')
                 # dict(zip(NAMES, <dist>.fit(...))): the names label the positions of the fit result
-                if d.zipped is not None and d.order is not None:
+                zsrc = d.zipped
+                if isinstance(zsrc, ast.Name):
+                    from ..idioms import single_def as _sdz
+                    z_ = _sdz(f.node, zsrc.id)
+                    zsrc = z_ if isinstance(z_, ast.AST) else None      # e.g. the starred rest of an unpacked fit result: positions not derived here
+                if d.zipped is not None and d.order is not None and isinstance(zsrc, ast.Call) and call_name(zsrc) == 'fit':
                     rep.check('D2.keys', f, s, tuple(d.order) == tuple(want), f'names {d.order} label the positions of {dotted.split(".")[-1]}.fit()',
                               f'the fit result of {dotted.split(".")[-1]} ({want}) is labelled {d.order}: parameters are stored under the wrong names',
                               construct=f"{c.name}.{nm} positions")
